@@ -210,7 +210,13 @@ def run(facts, res):
         fb = facts.body(fn)
         if fb is None:
             continue
-        for cb in [fb] + facts.closures_of(fb.path):
+        members_ = [fb] + facts.closures_of(fb.path)
+        for hb_ in cg_of(facts).reach(fb).values():
+            # extracted private helpers of Melda (e.g. collect_staged_changes) belong to the operation
+            if hb_.in_repo() and hb_.path != fb.path and hb_.kind != "closure" and hb_.impl_adt == "melda::Melda" and not hb_.public and \
+                    hb_.local_ty(0).startswith("std::vec::Vec<melda::Change") :
+                members_ += [hb_] + facts.closures_of(hb_.path)
+        for cb in members_:
             du = du_of(cb)
             cfg = cfg_of(cb)
             pushes = []
